@@ -2,7 +2,8 @@
 (* Generator of C12: TLC enumerates, as JSON lines for the harness,                         *)
 (*  - every reachable (corpus, segmentation) of the Bm25Struct state machine restricted to  *)
 (*    commits (documents = sequences over Words of length <= MaxLen, <= MaxDocs documents,  *)
-(*    every way of cutting them into segments), each with a few delete sets;                *)
+(*    every way of cutting them into segments), each with a few delete sets and the sets of  *)
+(*    segments that can be merged afterwards;                                               *)
 (*  - query trees of a bounded grammar over Words (term, phrase, boolean must / should /    *)
 (*    must-not with 1..3 clauses, boost, const-score, dis-max with tie breaker, nested).    *)
 (* Floats are symbols here ("B", "C", "TIE"); lib/props/c12.py concretises them, pads the   *)
@@ -57,5 +58,7 @@ Emit ==
       PrintT(<<"CASE", ToJson([kind |-> "corpus",
                                docs |-> [i \in DOMAIN added |-> added[i].toks],
                                cuts |-> [s \in DOMAIN segs |-> Len(segs[s])],
-                               dels |-> SetToSeq(dl)])>>)
+                               dels |-> SetToSeq(dl),
+                               \* which segments may be merged afterwards: every non-empty set of them
+                               merges |-> {SetToSeq(S) : S \in (SUBSET (1..Len(segs))) \ {{}}}])>>)
 =============================================================================
